@@ -43,7 +43,24 @@ def fp2bv(t):
     return "(fp.to_ieee_bv %s)" % t
 
 
+# Off for the interval model, whose two sides build differently-shaped terms for
+# equal values: there the program order, which the assembler keeps, is the
+# common order.
+NORMALIZE = True
+
+
 def fop(op, a, b, rm="RNE"):
+    """IEEE binary op on 32-bit patterns.  Addition and multiplication are
+    commutative (NaN payloads aside) and x + x == 2 * x exactly: both are
+    normalised here so that the machine-code side and the specification side
+    produce syntactically equal terms wherever they agree up to these laws."""
+    a, b = T(a, 32), T(b, 32)
+    if not NORMALIZE:
+        return fp2bv("(fp.%s %s %s %s)" % (op, rm, fp(a), fp(b)))
+    if op == "add" and a == b:
+        op, a = "mul", bv(0x40000000, 32)
+    if op in ("add", "mul") and b < a:
+        a, b = b, a
     return fp2bv("(fp.%s %s %s %s)" % (op, rm, fp(a), fp(b)))
 
 
